@@ -53,6 +53,24 @@ def textSafe : List Char → Bool
   | [] => true
   | c :: r => (c != '<' || (match r with | d :: _ => !opensMarkup d | [] => false)) && textSafe r
 
+/-- a byte of an attribute name as a writer should write it (the minifier's lexer lower-cases names; a name holds no white
+    space, `=` or `>`; `/` would end the name for the standard but not for that lexer) -/
+def nCh (c : Char) : Bool := !isWs c && c != '/' && c != '>' && c != '=' && lower c == c
+
+/-- attribute names that the theorems cover: not empty, made of `nCh` bytes -/
+def goodName (n : List Char) : Bool := !n.isEmpty && n.all nCh
+
+/-- a byte of a tag name (after the first): lower-case, no white space, no `>`, no `/` -/
+def tCh (c : Char) : Bool := !isWs c && c != '/' && c != '>' && lower c == c
+
+/-- tag names that the theorems cover: a lower-case ASCII letter, then `tCh` bytes -/
+def goodTag : List Char → Bool
+  | c :: cs => isAlpha c && lower c == c && cs.all tCh
+  | [] => false
+
+/-- the tokenizer modes with an "appropriate end tag" (RCDATA, RAWTEXT, script data) -/
+def rawMode (md : Mode) : Bool := md == .rcdata || md == .rawtext || md == .script
+
 /-- names of raw-text elements as the theorems need them: not empty, lower-case ASCII letters -/
 def goodRawTag (tag : List Char) : Bool := !tag.isEmpty && tag.all (fun c => isAlpha c && lower c == c)
 
